@@ -65,12 +65,16 @@ type hubRun struct {
 	panics    int
 	trace     []string
 	res       *Result
+	stuck     map[string]bool // connections whose peer stopped reading: their send func blocks until release is closed
+	release   chan struct{}
+	broken    bool // an operation never returned: the run cannot go on
 }
 
 func newHubRun(cfg hubCfg, ns int, res *Result) *hubRun {
 	return &hubRun{cfg: cfg, hub: peers.NewHub(), delivered: map[string][]string{}, remove: map[string]func(){},
 		added: map[string]bool{}, leaving: map[string]bool{}, replaced: map[string]bool{}, csDone: map[string]bool{},
-		rmOp: map[string]*gatedOp{}, csOp: map[string]*gatedOp{}, bcOp: map[int]*gatedOp{}, sendsLeft: ns, res: res}
+		rmOp: map[string]*gatedOp{}, csOp: map[string]*gatedOp{}, bcOp: map[int]*gatedOp{}, sendsLeft: ns, res: res,
+		stuck: map[string]bool{}, release: make(chan struct{})}
 }
 
 func (r *hubRun) viol(kind string, extra map[string]any) {
@@ -142,21 +146,37 @@ func (r *hubRun) step(a hubAct) {
 				r.replaced[o] = true
 			}
 		}
-		func() {
+		addDone := make(chan func(), 1)
+		go func() {
 			defer func() {
 				if p := recover(); p != nil {
+					r.mu.Lock()
 					r.panics++
+					r.mu.Unlock()
 					r.viol("panic", map[string]any{"op": "Add", "msg": fmt.Sprint(p)})
+					addDone <- nil
 				}
 			}()
-			r.remove[c] = r.hub.Add(sess, peers.Peer{PeerID: peer, Role: "receiver", ConnID: c},
+			addDone <- r.hub.Add(sess, peers.Peer{PeerID: peer, Role: "receiver", ConnID: c},
 				func(env protocol.Envelope) error {
+					if r.stuck[c] {
+						<-r.release // the socket write never completes
+						return fmt.Errorf("connection closed")
+					}
 					r.mu.Lock()
 					r.delivered[c] = append(r.delivered[c], env.MsgID)
 					r.mu.Unlock()
 					return nil
 				}, func() {})
 		}()
+		select {
+		case rm := <-addDone:
+			r.remove[c] = rm
+		case <-time.After(hubStepTimeout):
+			r.viol("operation_stuck", map[string]any{"op": "Add"})
+			r.broken = true
+			return
+		}
 		r.added[c] = true
 		r.csDoneReset(sess)
 	case "RmUnlink":
@@ -251,6 +271,10 @@ func (r *hubRun) oracle() {
 // settle finishes every in-flight operation, then checks routability with a
 // real addressed send, the absence of leaks, and delivery order.
 func (r *hubRun) settle() {
+	defer close(r.release)
+	if r.broken {
+		return
+	}
 	for _, group := range []map[string]*gatedOp{r.rmOp, r.csOp} {
 		for _, k := range sortedKeys(group) {
 			op := group[k]
@@ -271,7 +295,7 @@ func (r *hubRun) settle() {
 	r.oracle()
 	// addressed probe to every live connection
 	for _, c := range r.cfg.Conns {
-		if !r.live(c) {
+		if !r.live(c) || r.stuck[c] {
 			continue
 		}
 		id := "probe-" + c
@@ -372,6 +396,9 @@ func (r *hubRun) conforms(post hubProj) (bool, string) {
 	}
 	// messages accepted for delivery == messages handed to the send func (after the writer caught up)
 	for c, msgs := range post.Chan {
+		if r.stuck[c] {
+			continue
+		}
 		var want []string
 		for _, m := range msgs {
 			if len(m) == 2 {
@@ -408,6 +435,7 @@ func Hub(args []string) {
 	shards := fs.Int("shards", 1, "number of shards")
 	sample := fs.Int("sample", 0, "replay only a seeded sample of this many transitions (0 = all)")
 	budget := fs.Duration("budget", 10*time.Minute, "wall-clock budget")
+	stuckList := fs.String("stuck", "", "comma separated connections whose peer has stopped reading (StuckConns of the spec)")
 	fs.Parse(args)
 	g, err := graph.Load(*edges)
 	if err != nil {
@@ -445,6 +473,11 @@ func Hub(args []string) {
 			}
 			path := g.PathTo(target)
 			run := newHubRun(cfg, *ns, res)
+			for _, c := range strings.Split(*stuckList, ",") {
+				if c != "" {
+					run.stuck[c] = true
+				}
+			}
 			res.Behaviours++
 			for _, e := range path {
 				var a hubAct
@@ -468,6 +501,9 @@ func Hub(args []string) {
 					json.Unmarshal(cur.Act, &a)
 				}
 				run.step(a)
+				if run.broken {
+					break
+				}
 				actsSeen[a.A]++
 				covered[g.IndexOf(cur)] = true
 				var post hubProj
